@@ -352,7 +352,15 @@ def _cursor_offset(f, e):
     acc = {}
     e = f.deep_simplify(e)
     while isinstance(e, tuple) and e and e[0] == "call" and e[1] == "CircularSlicePtr::add" and len(e[2]) == 2:
-        _dlin(f, e[2][1], 1, acc)
+        inc = mir.strip_casts(f.deep_simplify(e[2][1]))
+        # the cursor's offset lives modulo the slice length N: add_mod(a, b, N) is a + b there
+        st = [inc]
+        while st:
+            x = mir.strip_casts(st.pop())
+            if isinstance(x, tuple) and x and x[0] in ("call", "pcall") and x[1] == "add_mod" and len(x[2]) == 3 and mir.strip_casts(x[2][2]) == ("cparam", "N"):
+                st.extend([x[2][0], x[2][1]])
+            else:
+                _dlin(f, x, 1, acc)
         e = f.deep_simplify(e[2][0])
     if isinstance(e, tuple) and e and e[0] == "call" and e[1] == "CircularSlicePtr::new":
         return acc
